@@ -6,4 +6,5 @@ export CARGO_NET_OFFLINE=true
 (cd tools/extract && cargo build --offline --release 2>&1 | tail -2)
 (cd rac && cp -f /repo/Cargo.lock Cargo.lock && cargo build --offline 2>&1 | tail -2)
 (cd rac2 && cp -f /repo/Cargo.lock Cargo.lock && cargo build --offline 2>&1 | tail -2)
+(cd rac3 && cp -f /repo/Cargo.lock Cargo.lock && cargo build --offline 2>&1 | tail -2)
 echo setup ok
